@@ -330,7 +330,7 @@ Lemma fam_eq :
   fam = mkfam (map (data_at sc W bkg clip large small) cs)
               (match s_err sc with
                | None => None
-               | Some e => Some (map (fun jk => Some (var_at sc W bkg clip large small jk e)) cs)
+               | Some e => Some (map (fun jk => var_at sc W bkg clip large small jk e) cs)
                end)
               (map (mask_at_cell sc W bkg clip large small) cs)
               (map (fun jk => Some (weight_at sc W bkg clip large small jk)) cs) true h w.
@@ -383,7 +383,7 @@ Qed.
 Lemma fam_var_values e : s_err sc = Some e ->
   exists vl, f_var fam = Some vl /\
     compressed vl (f_mask fam)
-    = map (fun p => Some (get2 0 e (fst p) (snd p) * get2 0 e (fst p) (snd p) * weight_px b W p))
+    = map (fun p => vmulw (vsq (get2 None e (fst p) (snd p))) (weight_px b W p))
           (A_pixels sc b W clip).
 Proof.
   intros He. rewrite fam_eq. cbn [f_var f_mask]. rewrite He. eexists. split; [reflexivity|].
@@ -391,7 +391,9 @@ Proof.
   rewrite (A_pixels_cutout sc b W bkg clip large small Hov Hclip), map_map.
   apply map_ext_in. intros jk Hin. apply keep_filter_In in Hin. destruct Hin as (Hin & Hk).
   unfold var_at. unfold keep in Hk. apply negb_true_iff in Hk. rewrite Hk.
-  rewrite (aw_shift sc b W large small Hov jk). cbn [fst snd]. f_equal. lia.
+  rewrite (aw_shift sc b W large small Hov jk). cbn [fst snd].
+  destruct (vsq (get2 None e (fst (fst large) + fst jk) (fst (snd large) + snd jk))) as [v|]; cbn [vmulw];
+    [f_equal; lia|reflexivity].
 Qed.
 
 Lemma weight_at_keep jk : In jk cs -> keep jk = true ->
@@ -882,8 +884,7 @@ Proof.
     destruct (fam_var_values sc b W bkg clip large small Hov Hclip e He) as (vl & Hvl & Hcomp).
     fold fam in Hvl, Hcomp. unfold sum_var_of. rewrite Hvl.
     rewrite (get_values_map _ _ _ _ Hcomp), (get_values_of_ne _ _ Hne).
-    rewrite (osum_some (fun p => get2 0 e (fst p) (snd p) * get2 0 e (fst p) (snd p) * weight_px b W p)).
-    f_equal. rewrite HA, map_map. apply zsum_map_ext_in. intros jk Hin.
+    f_equal. rewrite HA, map_map. apply map_ext_in. intros jk Hin.
     pose proof (aw_shift sc b W large small Hov jk) as Haw. unfold aw_at in Haw. cbn [fst snd].
     rewrite Haw. reflexivity.
   - assert (all_masked fam = false) as ->.
@@ -1112,7 +1113,7 @@ Definition same_window (sc sc' : scene) (b : bbox) (dy dx : Z) : Prop :=
   | None, None => True
   | Some e, Some e' =>
       forall y x, 0 <= y < s_ny sc -> 0 <= x < s_nx sc -> in_box b y x = true ->
-                  get2 0 e' (y + dy) (x + dx) = get2 0 e y x
+                  get2 None e' (y + dy) (x + dx) = get2 None e y x
   | _, _ => False
   end.
 
